@@ -136,7 +136,7 @@ pub fn class_bears_on(class: &str, property: &str) -> bool {
         "C12" => matches!(c, "transcript-diff" | "newgame-not-fresh" | "bench-diff"),
         "C13" => matches!(
             c,
-            "option-rejected" | "panic" | "abort" | "illegal-bestmove" | "missing-readyok" | "missing-bestmove" | "deadlock" | "engine-exit" | "options-not-advertised" | "stop-not-honoured" | "command-stuck"
+            "option-rejected" | "panic" | "abort" | "illegal-bestmove" | "missing-readyok" | "missing-bestmove" | "deadlock" | "engine-exit" | "options-not-advertised" | "stop-not-honoured" | "command-stuck" | "limit-ignored" | "illegal-ponder"
         ),
         "C14" => matches!(c, "limit-hard-exceeds-half" | "limit-soft-exceeds-hard" | "limit-movetime-not-as-given" | "flag-fall" | "limits-missing" | "limit-ignored" | "panic" | "abort" | "missing-bestmove" | "deadlock"),
         "C19" => c.starts_with("tt-") || matches!(c, "panic" | "abort"),
